@@ -130,9 +130,22 @@ def check(ctx):
         sc = scalls[0]
         arg = sc.args[0] if sc.args else None
         defs = reaching_assignments(prog, seedfn, arg.id, sc) if isinstance(arg, ast.Name) else [arg]
-        okarg = bool(defs) and all("OPT[random_seed]" in canon(d) for d in defs)
+        from .common import deref_canon as _dc7
+
+        okarg = bool(defs) and all("OPT[random_seed]" in canon(d) or "OPT[random_seed]" in _dc7(prog, seedfn, d) for d in defs)
         g = guard_canon(prog, seedfn, sc)
-        okg = any("OPT[random_seed] is not None" in x for x in g) and all("OPT[random_seed]" in x or "random_seed" in x for x in g)
+        # every guard conjunct must be about the option (as written or with its locals expanded); one of them is the
+        # presence test
+        from ..terms import conjuncts as _cj, guard_of as _go
+        from .common import deref_expr as _dx
+
+        unrelated = []
+        for t_, pol_ in _go(prog, seedfn, sc):
+            for c_, p_ in _cj(t_, pol_):
+                alts = {canon(c_, neg=not p_)} | {canon(c2, neg=not p2) for c2, p2 in _cj(_dx(prog, seedfn, c_), p_)}
+                if not any("random_seed" in a_ for a_ in alts):
+                    unrelated.append(canon(c_, neg=not p_))
+        okg = any("OPT[random_seed] is not None" in x or "not (OPT[random_seed] is None)" in x for x in g) and not unrelated
         ctx.check(okarg and okg, seedfn, sc, "np.random.seed(int(options['random_seed'])) whenever the option is set", "the global generator is not seeded from options['random_seed'] whenever that option is set", construct=f"seed call {canon(sc)[:50]} under {g[-2:]}")
         sinks = {f for f, _ in R.target_sinks}
 
